@@ -9,4 +9,6 @@ cargo build --release --offline -p libchecks 2>&1 | tail -3
 if [ -d tuichecks/src ] && [ -f tuichecks/Cargo.toml ]; then
   cargo build --release --offline -p tuichecks 2>&1 | tail -3
 fi
+# the real command-line binary used by the process-level parts of C06 / C12 (dev profile, own target dir)
+CARGO_TARGET_DIR="$PWD/target/repo-bin" cargo build --offline --manifest-path /repo/Cargo.toml -p emulator-2a 2>&1 | tail -2
 echo "setup done"
